@@ -111,6 +111,8 @@ func lineSibling(x, y *big.Int, plus bool) (*big.Int, *big.Int) {
 // genC02: Add / Subtract / Double / Negate on every relation class, every aliasing, chained so that
 // later operands are in whatever representation earlier operations left them.
 func genC02(m *M, budget int) {
+	m.corpusGroup()
+	budget += m.events
 	k := 0
 	for m.events < budget {
 		m.reset()
